@@ -58,6 +58,11 @@ type Descriptor struct {
 	resultFields   []reflection.ResultField
 	isParamObject  bool
 	paramFields    []reflection.ParamField
+
+	// siblings lists, in output order, all descriptors registered by the same Add
+	// call (result-object fields, multiple returns, aliases), this one included.
+	// One invocation of the shared constructor serves all of them.
+	siblings []*Descriptor
 }
 
 // newDescriptor creates a new descriptor from a service with the given lifetime and options
